@@ -185,10 +185,10 @@ fn silence_stderr() {
 fn main() {
     run_check("C04", Level::ModelChecking, |ctx| {
         silence_stderr();
-        let depth = match ctx.tier {
+        let depth = std::env::var("C04_DEPTH").ok().and_then(|s| s.parse().ok()).unwrap_or(match ctx.tier {
             Tier::Quick => 2,
-            Tier::Thorough => 3,
-        };
+            Tier::Thorough => 4,
+        });
         let starts = gen_write::start_graphs();
         if let Some(p) = &ctx.replay {
             replay(ctx, p);
